@@ -456,6 +456,17 @@ def check(run):
         yield 'offset_bytes = 255', base[:5] + b'\xff' + base[6:]
         big, _ = bocspec.encode([SCell('1' * 8)], size=1, off=1)
         yield 'cell announcing 7 references', big[:-3] + bytes([7]) + big[-2:]
+        # reference cycles: a parser that waits for referenced cells to be built must not wait forever
+        ch, chcells = bocspec.encode([SCell('10101010', [SCell('11110000', [SCell('00001111')])])], size=1, off=1)
+        hdr_ = 4 + 1 + 1 + 3 + 1 + 1
+        r0 = hdr_ + 2 + len(chcells[0].data_bytes())
+        r1 = r0 + 1 + 2 + len(chcells[1].data_bytes())
+        cyc = bytearray(ch)
+        cyc[r1] = 0
+        yield 'two cells referencing each other (0 -> 1 -> 0)', bytes(cyc)
+        slf = bytearray(ch)
+        slf[r1] = 1
+        yield 'cell referencing itself (1 -> 1)', bytes(slf)
     for name, raw in boc_variants():
         limit = 8 * len(raw) + 64
         it = BoundedInterp(prog, limit)
